@@ -10,7 +10,9 @@ from .checkC16 import run_in_fresh_process, shrink
 from .rng import Rng, derive
 from .snapshot import snapshot
 
-PREFIXES = [None, ['Other'], ['Other', 'Project'], ['a', 'B', 'c9'], ['Other_Project'], ['a_B', 'c9']]
+# colliding pairs ('Other_Project' vs 'Other', 'Project'), and identifiers the support files use themselves ('Dzn')
+PREFIXES = [None, ['Other'], ['Other', 'Project'], ['a', 'B', 'c9'], ['Other_Project'], ['a_B', 'c9'], ['Acme', 'Dzn'], ['Dzn'], ['Dzn', 'Acme'],
+            ['dzn'], ['Acme', 'Dzn', 'Dzn']]
 
 
 def invalid_variants(rng: Rng, spec, cfg):
